@@ -50,8 +50,12 @@ pub fn case_strategy(prefix: usize, walk: usize, profile: Profile) -> BoxedStrat
             .prop_map(move |((locale, language), ops)| Case { locale, language, profile, ops })
             .boxed();
     }
-    walk_strategy(prefix, walk, profile)
-        .prop_map(move |ops| Case { locale: "en".into(), language: "en".into(), profile, ops })
+    (any::<bool>(), walk_strategy(prefix, walk, profile))
+        .prop_map(move |(rich, ops)| {
+            let mut all = if rich { ops::rich_setup(profile) } else { vec![] };
+            all.extend(ops);
+            Case { locale: "en".into(), language: "en".into(), profile, ops: all }
+        })
         .boxed()
 }
 
